@@ -128,6 +128,17 @@ pub fn handle_invariants<L: Language, N: Analysis<L>>(eg: &EGraph<L, N>, handles
         if !eg.ids().contains(&f1.id) {
             return (n, Some(("alive-not-in-ids".into(), format!("{:?} alive but absent from ids()", f1.id))));
         }
+        // the identity invocation of the class id the handle was returned with (possibly merged away since), with the handle's
+        // arguments plugged in, is the same invocation
+        match guard(|| eg.find_applied_id(&eg.mk_identity_applied_id(h.id).apply_slotmap_partial(&h.m))) {
+            Ok(alt) => {
+                n += 1;
+                if alt != f1 {
+                    return (n, Some(("identity-invocation-of-old-id-differs".into(), format!("mk_identity_applied_id({:?}) with the arguments of {h:?} canonicalises to {alt:?}, the handle itself to {f1:?}", h.id))));
+                }
+            }
+            Err(p) => return (n, Some((format!("mk_identity_applied_id() {}", p.site()), format!("mk_identity_applied_id({:?}).apply_slotmap panicked: {}", h.id, p.msg)))),
+        }
         // the e-nodes of the class as seen through the handle (its user slots as arguments) look up to that invocation
         let ns = match guard(|| eg.enodes_applied(&f1)) {
             Ok(x) => x,
